@@ -54,8 +54,6 @@ def _run_impl(case: dict) -> list:
         gates = {}              # pid -> future: the poller is asleep inside take_tokens
         idle = {}               # pid -> future: the chunk loop finished a chunk and waits to start the next (via != direct)
         tasks = {}              # pid -> task (direct: the pending take_tokens; otherwise the whole send_file/receive_file)
-        bound = {}              # pid -> limiter object of the pending call
-        order = {}              # id(limiter) -> pids in order of arrival (harness bookkeeping)
         grants = []
 
         async def fake_sleep(d, *a, **k):
@@ -67,9 +65,6 @@ def _run_impl(case: dict) -> list:
 
         def granted(pid, g):
             grants.append((pid, g))
-            lim = bound.pop(pid, None)
-            if lim is not None and pid in order.get(id(lim), []):
-                order[id(lim)].remove(pid)
 
         async def request(pid, lim):
             g = await lim.take_tokens()
@@ -118,6 +113,29 @@ def _run_impl(case: dict) -> list:
             tasks[pid] = asyncio.ensure_future(co)
             tasks[pid].set_name(str(pid))
 
+        def sleeping_on(pid):
+            """the limiter object in whose take_tokens loop the poller is asleep (innermost take_tokens frame)"""
+            t = tasks.get(pid)
+            c = t.get_coro() if t is not None else None
+            found = None
+            while c is not None:
+                fr = getattr(c, 'cr_frame', None)
+                if fr is not None and fr.f_code.co_name == 'take_tokens':
+                    found = fr.f_locals.get('self')
+                c = getattr(c, 'cr_await', None)
+            return found
+
+        def show_obj(o):
+            if isinstance(o, rl.UnlimitedRateLimiter):
+                return f'U {o.bucket} {_ticks(o.last_refill)}'
+            holder = [q for q in sorted(gates) if sleeping_on(q) is o]
+            lock = getattr(o, '_lock', None)
+            waiters = list(getattr(lock, '_waiters', None) or [])
+            by_fut = {id(getattr(t, '_fut_waiter', None)): q for q, t in tasks.items()}
+            queue = [by_fut.get(id(w), '?') for w in waiters if not w.cancelled()]
+            return (f'L {o.bucket} {_ticks(o.last_refill)} {",".join(map(str, holder)) or "-"} '
+                    f'{",".join(map(str, queue)) or "-"}')
+
         rl.asyncio = _AsyncioProxy(fake_sleep)
         net = None
         conns = []
@@ -135,7 +153,7 @@ def _run_impl(case: dict) -> list:
                 t.cancel()
             if tasks:
                 await asyncio.gather(*tasks.values(), return_exceptions=True)
-            tasks.clear(); gates.clear(); bound.clear(); order.clear(); idle.clear()
+            tasks.clear(); gates.clear(); idle.clear()
 
         for op in case['ops']:
             if op[0] == 'new':
@@ -174,19 +192,12 @@ def _run_impl(case: dict) -> list:
                 _, pid, dt = op
                 clock.ticks += dt
                 grants.clear()
-                if pid in bound:
-                    o = bound[pid]
+                if pid in tasks and pid not in idle:          # a request of this poller is pending
                     if pid in gates:
-                        gates.pop(pid).set_result(None)
-                        status = 'polled'
-                    else:
-                        status = 'blocked'
+                        gates.pop(pid).set_result(None)        # asleep as a lock holder: the sleep is over
                 else:
                     o = getattr(conns[pid], lim_attr)
-                    locked = hasattr(o, '_lock') and o._lock.locked()
-                    status = 'blocked' if locked else 'polled'
-                    bound[pid] = o
-                    order.setdefault(id(o), []).append(pid)
+                    idx(o)
                     if via == 'direct':
                         tasks[pid] = asyncio.ensure_future(request(pid, o))
                         tasks[pid].set_name(str(pid))
@@ -199,14 +210,10 @@ def _run_impl(case: dict) -> list:
                 if dead:
                     obs.append(f'chunk-loop-ended {dead} {[repr(tasks[q].exception()) if not tasks[q].cancelled() else "cancelled" for q in dead]}')
                     break
-                holder = [q for q in order.get(id(o), []) if q in gates]
-                queue = [q for q in order.get(id(o), []) if q not in gates]
+                fate = 'granted' if any(a == pid for a, _ in grants) else 'asleep' if pid in gates else \
+                    'queued' if (pid in tasks and pid not in idle) else 'none'
                 g = ','.join(f'{a}:{b}' for a, b in grants) or '-'
-                if isinstance(o, rl.UnlimitedRateLimiter):
-                    obs.append(f'{status} {idx(o)} {g} 0 0 - -')
-                else:
-                    obs.append(f'{status} {idx(o)} {g} {o.bucket} {_ticks(o.last_refill)} '
-                               f'{holder[0] if holder else "-"} {",".join(map(str, queue)) or "-"}')
+                obs.append(f'{fate} {g} | ' + ' ; '.join(show_obj(x) for x in objs))
         await drop_pending()
         bad_sleeps = [d for d in sleeps if d != rl.INTERVAL]
         if bad_sleeps:
@@ -340,8 +347,9 @@ def _run_wire(case: dict) -> dict:
 
 def _monitor_wire(case: dict, res: dict) -> list[Violation]:
     """bytes moved by all file connections together in any window inside a period with a positive limit
-    ≤ ∫L dt + max L (+ one grant quantum per connection and per limit change: requests already pending on a replaced
-    limiter object are still served by it; + the known full-bucket quantum); no throttling without a limit; progress."""
+    ≤ ∫L dt + max L + one grant quantum at the start and per limit change (the bound of `C20_window_piecewise_partial`:
+    the known full-bucket quantum; requests pending on a replaced limiter object are handed to its successor and are
+    NOT served on top of the new limit); no throttling without a limit; progress."""
     vs = []
     changes = [(0.0, case['start'])] + [(a, k) for a, k in case['changes']]
     def limit_at(t):
@@ -388,7 +396,7 @@ def _monitor_wire(case: dict, res: dict) -> list[Violation]:
             if lims[sj] > mx:
                 mx = lims[sj]
             tot += log[j][1]
-            bound = Fs[j] - Fs[i] + mx + q * (case['k'] + 1) * (sj - si + 1)
+            bound = Fs[j] - Fs[i] + mx + q * (sj - si + 1)
             if tot > bound + 1e-6:
                 t1, t2 = log[i][0], log[j][0]
                 vs.append(Violation('C20-window-exceeded', f'{case["dir"]}load, {case["k"]} connection(s): {tot} bytes on the wire in '
@@ -453,12 +461,20 @@ def _model_lines(case: dict) -> list[str]:
 
 
 def _parse_obs(o: str):
-    """`<status> <obj> <pid:grant,…|-> <bucket> <last> <holder|-> <queue|->`"""
-    parts = o.split()
-    grants = [] if parts[2] == '-' else [tuple(int(x) for x in g.split(':')) for g in parts[2].split(',')]
-    return {'status': parts[0], 'obj': int(parts[1]), 'grants': grants, 'bucket': int(parts[3]),
-            'holder': None if parts[5] == '-' else int(parts[5]),
-            'queue': [] if parts[6] == '-' else [int(x) for x in parts[6].split(',')]}
+    """`<fate> <pid:grant,…|-> | <obj> ; <obj> ; …` with obj = `U <bucket> <last>` | `L <bucket> <last> <holder|-> <queue|->`"""
+    head, _, tail = o.partition(' | ')
+    fate, g = head.split()
+    grants = [] if g == '-' else [tuple(int(x) for x in y.split(':')) for y in g.split(',')]
+    objs = []
+    for t in tail.split(' ; '):
+        f = t.split()
+        if f[0] == 'U':
+            objs.append({'kind': 'U', 'bucket': int(f[1])})
+        else:
+            objs.append({'kind': 'L', 'bucket': int(f[1]),
+                         'holder': None if f[3] == '-' else int(f[3].split(',')[0]),
+                         'queue': [] if f[4] == '-' else [int(x) if x != '?' else -1 for x in f[4].split(',')]})
+    return {'fate': fate, 'grants': grants, 'objs': objs}
 
 
 def _polls_needed(q: int, gap_ticks: float) -> int:
@@ -471,88 +487,93 @@ def _polls_needed(q: int, gap_ticks: float) -> int:
 
 
 def _monitor(case: dict, obs: list) -> list[Violation]:
-    """Property statement on the implementation trace: per limiter *object* with limit L, grants in any window
-    [t_i, t_j] ≤ L*(t_j - t_i) + L; unlimited grants are immediate; with disciplined polls every request is
-    served within 16 holder polls per waiter ahead of it (no waiter is starved)."""
+    """Property statement on the implementation trace. All requests together: the bytes granted in any window
+    [t_i, t_j] during which a positive limit was in force throughout are ≤ ∫L dt + max L (limit changes included;
+    + one grant quantum per poll that found the bucket full — the known stale-clock finding); while no limit is in
+    force no request sleeps and a new request is granted at once; with disciplined polls every request is served
+    within `need` holder polls per waiter ahead of it (no waiter is starved)."""
     import aioslsk.network.rate_limiter as rl
     vs = []
     now = 0
-    limit_of = {}       # object index → limit in bytes/s (0 = unlimited)
-    events = {}         # object index → list of (time, bytes granted at that instant, bucket full before?)
-    n_objs = 0
-    prev_bucket = {}
-    waiting = {}        # pid → [object, holder polls seen since it arrived, waiters ahead at arrival]
-    need = _polls_needed(rl.LimitedRateLimiter.MIN_BUCKET_SIZE, 10)      # disciplined polls are >= 10 ticks apart
-    for op, o in zip(case['ops'], obs):
+    L = 0               # limit in force, bytes/s (0 = unlimited)
+    events = []         # (time, bytes granted in that step, limit in force, 1 if the poll found the bucket full)
+    sets = []           # (time, new limit)
+    pending = set()
+    cur_bucket = 0
+    waiting = {}        # pid → [holder polls seen since it arrived, waiters ahead at arrival]
+    q = rl.LimitedRateLimiter.MIN_BUCKET_SIZE
+    need = _polls_needed(q, 10)      # disciplined polls are >= 10 ticks apart
+    for k, (op, o) in enumerate(zip(case['ops'], obs)):
         if op[0] == 'new':
-            now = op[2]
-            limit_of = {0: op[1] * 1024}
-            events = {}
-            n_objs = 1
-            prev_bucket = {0: 0}
-            waiting = {}
+            now, L = op[2], op[1] * 1024
+            events, sets, pending, waiting, cur_bucket = [], [], set(), {}, 0
         elif op[0] == 'set':
-            limit_of[n_objs] = op[1] * 1024
-            parts = o.split()
-            prev_bucket[n_objs] = int(parts[1])
-            n_objs += 1
+            L = op[1] * 1024
+            sets.append((now, L, k))
+            cur_bucket = int(o.split()[1])
         else:
             now += op[2]
-            r = _parse_obs(o)
-            oi = r['obj']
-            L = limit_of.get(oi)
             pid = op[1]
-            if L == 0:
-                if not r['grants'] or r['grants'][0][1] <= 0:
-                    vs.append(Violation('C20-unlimited-throttled', 'unlimited limiter did not grant at once',
-                                        case, observed=o))
+            try:
+                r = _parse_obs(o)
+            except (ValueError, IndexError):
                 continue
-            full_before = prev_bucket.get(oi) == L
+            was_pending = pid in pending
             tot = sum(g for _, g in r['grants'])
-            if r['status'] == 'polled':
-                events.setdefault(oi, []).append((now, tot, full_before))
-                prev_bucket[oi] = r['bucket']
-            # starvation bookkeeping (only meaningful for disciplined schedules)
-            if pid not in waiting and not any(p == pid for p, _ in r['grants']):
-                ahead = len([q for q in ([r['holder']] if r['holder'] is not None else []) + r['queue'] if q != pid])
-                waiting[pid] = [oi, 0, ahead]
-            if r['status'] == 'polled':
-                for w in waiting.values():
-                    if w[0] == oi:
-                        w[1] += 1
-            for p, _g in r['grants']:
-                waiting.pop(p, None)
-            if case.get('disciplined'):
-                for p, (woi, polls, ahead) in waiting.items():
+            cur = r['objs'][-1]
+            if L == 0:
+                if r['fate'] == 'asleep' or (not was_pending and r['fate'] != 'granted') or \
+                        any(g <= 0 for _, g in r['grants']):
+                    vs.append(Violation('C20-unlimited-throttled', f'no limit in force but the request of poller {pid} was '
+                                        f'not granted at once ({r["fate"]})', case, observed=o))
+            else:
+                polled = r['fate'] != 'queued' or bool(r['grants'])
+                if polled or tot:
+                    events.append((now, tot, L, 1 if (cur['kind'] == 'L' and cur_bucket == L and tot) else 0, k))
+            cur_bucket = cur['bucket']
+            # bookkeeping of pending requests
+            for a, _g in r['grants']:
+                pending.discard(a)
+                waiting.pop(a, None)
+            if r['fate'] in ('asleep', 'queued'):
+                pending.add(pid)
+            # starvation (only meaningful for disciplined schedules: one object, no limit changes)
+            if case.get('disciplined') and cur['kind'] == 'L':
+                if pid not in waiting and r['fate'] in ('asleep', 'queued') and not was_pending:
+                    ahead = len([x for x in ([cur['holder']] if cur['holder'] is not None else []) + cur['queue'] if x != pid])
+                    waiting[pid] = [0, ahead]
+                if was_pending and r['fate'] != 'queued' or (not was_pending and r['fate'] in ('asleep', 'granted')):
+                    for w in waiting.values():
+                        w[0] += 1
+                for x, (polls, ahead) in waiting.items():
                     if need and polls > need * (ahead + 1) + 1:
-                        vs.append(Violation('C20-starved', f'request of poller {p} not served after {polls} disciplined '
-                                            f'holder polls of object {woi} ({ahead} waiters were ahead of it)', case))
+                        vs.append(Violation('C20-starved', f'request of poller {x} not served after {polls} disciplined '
+                                            f'holder polls ({ahead} waiters were ahead of it)', case))
                         waiting = {}
                         break
-    q = rl.LimitedRateLimiter.MIN_BUCKET_SIZE
-    for oi, evs in events.items():
-        L = limit_of[oi]
-        n = len(evs)
-        for i in range(n):
-            tot = 0
-            for j in range(i, n):
-                tot += evs[j][1]
-                T = evs[j][0] - evs[i][0]
-                if tot * TPS > L * T + L * TPS:
-                    excess = tot - (L * T + L * TPS) / TPS
-                    # known finding: the window starts on a full bucket (its refill clock is stale)
-                    if evs[i][2] and tot * TPS <= L * T + (L + q) * TPS:
-                        sig = KNOWN_SIG
-                    else:
-                        sig = 'C20-window-exceeded'
-                    vs.append(Violation(sig, f'limit {L} B/s: {tot} bytes granted in {T}/{TPS} s '
-                                        f'(bound {L}*T+{L}, excess {excess:.1f} B)', case,
-                                        observed={'object': oi, 'from': i, 'to': j, 'bytes': tot, 'ticks': T},
-                                        required=f'<= {L * T / TPS + L}'))
-                    break
-            else:
-                continue
-            break
+    # window bound of `C20_window_piecewise_partial`: bytes granted while a limit is in force, in any window, are at most
+    # Lmax·T + Lmax (Lmax = the largest limit in force at any moment of the window, T its whole length, periods without
+    # a limit included) — plus one quantum per poll that found the bucket full (the known stale-clock finding)
+    n = len(events)
+    for i in range(n):
+        tot, mx, full = 0, 0, 0
+        for j in range(i, n):
+            t, g, Lj, fb, k = events[j]
+            mx = max([mx, Lj] + [l0 for (_a, l0, ks) in sets if events[i][4] < ks < k])
+            tot += g
+            full += fb
+            T = t - events[i][0]
+            if tot * TPS > mx * T + mx * TPS:
+                excess = tot - (mx * T + mx * TPS) / TPS
+                sig = KNOWN_SIG if (full and tot * TPS <= mx * T + (mx + q * full) * TPS) else 'C20-window-exceeded'
+                vs.append(Violation(sig, f'largest limit in force {mx} B/s: {tot} bytes granted under a limit in {T}/{TPS} s '
+                                    f'(bound {mx}*T+{mx}, excess {excess:.1f} B)', case,
+                                    observed={'from_op': events[i][4], 'to_op': k, 'bytes': tot, 'ticks': T},
+                                    required=f'<= {mx * T / TPS + mx}'))
+                break
+        else:
+            continue
+        break
     return vs
 
 
@@ -580,7 +601,7 @@ GAPS = [0, 0, 1, 1, 2, 5, 10, 11, 11, 12, 20, 64, 512, 1024, 1025, 5000, 3600 * 
 
 
 def _gen_case(rng: random.Random, size: int) -> dict:
-    kind = rng.choice(['lone', 'fair', 'fair', 'multi', 'changes', 'changes', 'burst'])
+    kind = rng.choice(['lone', 'fair', 'fair', 'multi', 'changes', 'changes', 'burst', 'offon'])
     limits = [1, 1, 2, 3, 7, 50, 100, 1000, 9999, 10000, rng.randint(1, 10000)]
     k0 = rng.choice(limits + [0])
     ops: list = [['new', k0, rng.choice([0, 1, 1023, 1024, 5000, 10 ** 6, rng.randint(0, 10 ** 7)])]]
@@ -595,6 +616,22 @@ def _gen_case(rng: random.Random, size: int) -> dict:
         ops[0][1] = rng.choice([1, 1, 2, 3, 50])
         for _ in range(max(n, 40)):
             ops.append(['poll', rng.randrange(k), rng.choice([11, 11, 12, 13, 20])])
+    elif kind == 'offon':
+        # a small limit, the bucket drained at one instant, then the limit is switched off and on again / re-applied /
+        # raised / lowered (possibly while requests are pending), each time followed by another burst at the same instant
+        k0 = rng.choice([1, 1, 2, 3])
+        ops[0][1] = k0
+        ops.append(['poll', 0, rng.choice([0, 1024, 2048, 10240])])
+        burst = 8 * k0 + rng.randint(0, 3)
+        for _ in range(burst):
+            ops.append(['poll', rng.randint(0, 3), 0])
+        for _ in range(rng.randint(1, 3)):
+            for k in rng.choice([[0, k0], [0, k0], [k0], [0, 0, k0], [k0 + 1, k0], [0, 1], [0]]):
+                ops.append(['set', k])
+                if rng.random() < 0.3:
+                    ops.append(['poll', rng.randint(0, 3), 0])
+            for _ in range(burst):
+                ops.append(['poll', rng.randint(0, 3), rng.choice([0, 0, 0, 0, 1])])
     elif kind == 'burst':
         ops.append(['poll', 0, rng.choice([0, 2048, 10240])])
         for _ in range(n):
@@ -689,13 +726,14 @@ class C20(Property):
                 res.violations.append(Violation('C20-impl-error', 'limiter raised / slept a wrong interval', c, observed=io[-1]))
                 continue
             polled = [o for op, o in zip(c['ops'], io) if op[0] == 'poll']
-            if any(' - ' in o.split(' ', 2)[2][:3] or o.split()[2] == '-' for o in polled) and \
-                    any(o.split()[2] != '-' for o in polled):
+            if any(o.split()[1] == '-' for o in polled) and any(o.split()[1] != '-' for o in polled):
                 res.nontrivial_keys.add(common.sha(c['ops']))
-            if any(o.startswith('blocked') for o in polled):
+            if any(o.startswith('queued') for o in polled):
                 res.count('cases-with-blocked-waiter')
-            if any(',' in o.split()[2] for o in polled):
+            if any(',' in o.split()[1] for o in polled):
                 res.count('cases-with-cascade')
+            if any(op[0] == 'set' for op in c['ops']) and any(o.count(' ; ') and o.split()[1] != '-' for o in polled):
+                res.count('cases-with-grant-after-limit-change')
             if model is not None:
                 res.traces_validated += 1
                 if model[i] != io:
